@@ -4,6 +4,7 @@ import (
 	"sort"
 	"sync"
 	"time"
+	"unsafe"
 )
 
 // The primitives below replace sync.Mutex, RWMutex, Cond, WaitGroup, Once and
@@ -39,6 +40,7 @@ func (m *Mutex) Lock() {
 		s.block(g, "mutex")
 	}
 	m.held = true
+	raceAcquire(unsafe.Pointer(m))
 }
 
 func (m *Mutex) TryLock() bool {
@@ -47,6 +49,7 @@ func (m *Mutex) TryLock() bool {
 		return false
 	}
 	m.held = true
+	raceAcquire(unsafe.Pointer(m))
 	return true
 }
 
@@ -54,6 +57,7 @@ func (m *Mutex) Unlock() {
 	if !m.held {
 		panic("sync: unlock of unlocked mutex")
 	}
+	raceRelease(unsafe.Pointer(m))
 	m.held = false
 	s := cur
 	if s == nil {
@@ -69,6 +73,7 @@ func (m *Mutex) Unlock() {
 
 // RWMutex replaces sync.RWMutex (writer-preferring, like the standard one).
 type RWMutex struct {
+	rsem, wsem uint64 // addresses for the race detector's happens-before edges (as in sync.RWMutex)
 	writer   bool
 	readers  int
 	wwaiting int
@@ -99,12 +104,15 @@ func (m *RWMutex) Lock() {
 		m.wwaiting--
 	}
 	m.writer = true
+	raceAcquire(unsafe.Pointer(&m.rsem))
+	raceAcquire(unsafe.Pointer(&m.wsem))
 }
 
 func (m *RWMutex) Unlock() {
 	if !m.writer {
 		panic("sync: Unlock of unlocked RWMutex")
 	}
+	raceRelease(unsafe.Pointer(&m.rsem))
 	m.writer = false
 	s := cur
 	if s == nil {
@@ -126,12 +134,14 @@ func (m *RWMutex) RLock() {
 		s.block(g, "rwmutex.r")
 	}
 	m.readers++
+	raceAcquire(unsafe.Pointer(&m.rsem))
 }
 
 func (m *RWMutex) RUnlock() {
 	if m.readers <= 0 {
 		panic("sync: RUnlock of unlocked RWMutex")
 	}
+	raceReleaseMerge(unsafe.Pointer(&m.wsem))
 	m.readers--
 	s := cur
 	if s == nil {
@@ -199,12 +209,16 @@ func (c *Cond) Signal() {
 
 // WaitGroup replaces sync.WaitGroup.
 type WaitGroup struct {
+	sema    uint64
 	n       int
 	waiters []*G
 }
 
 func (wg *WaitGroup) Add(d int) {
 	yieldInternal("wgadd")
+	if d < 0 {
+		raceReleaseMerge(unsafe.Pointer(&wg.sema))
+	}
 	wg.n += d
 	if wg.n < 0 {
 		panic("sync: negative WaitGroup counter")
@@ -233,22 +247,25 @@ func (wg *WaitGroup) Wait() {
 		wg.waiters = append(wg.waiters, g)
 		s.block(g, "waitgroup")
 	}
+	raceAcquire(unsafe.Pointer(&wg.sema))
 }
 
 // Once replaces sync.Once.
 type Once struct {
+	sema uint64
 	done bool
 	m    Mutex
 }
 
 func (o *Once) Do(f func()) {
 	if o.done {
+		raceAcquire(unsafe.Pointer(&o.sema))
 		return
 	}
 	o.m.Lock()
 	defer o.m.Unlock()
 	if !o.done {
-		defer func() { o.done = true }()
+		defer func() { raceRelease(unsafe.Pointer(&o.sema)); o.done = true }()
 		f()
 	}
 }
@@ -256,6 +273,7 @@ func (o *Once) Do(f func()) {
 // Pool replaces sync.Pool with a deterministic LIFO, so that pooled objects
 // (checksums, relay timers, frames) are reused in every run.
 type Pool struct {
+	sema  uint64
 	New   func() interface{}
 	items []interface{}
 }
@@ -265,6 +283,7 @@ func (p *Pool) Get() interface{} {
 		x := p.items[n-1]
 		p.items[n-1] = nil
 		p.items = p.items[:n-1]
+		raceAcquire(unsafe.Pointer(&p.sema))
 		return x
 	}
 	if p.New != nil {
@@ -274,6 +293,7 @@ func (p *Pool) Get() interface{} {
 }
 
 func (p *Pool) Put(x interface{}) {
+	raceReleaseMerge(unsafe.Pointer(&p.sema))
 	p.items = append(p.items, x)
 }
 
@@ -302,15 +322,18 @@ func AfterFuncQuiet(d time.Duration, f func()) *time.Timer {
 	if s == nil {
 		return time.AfterFunc(d, f)
 	}
+	raceDisable()
 	s.mu.Lock()
 	s.timerSeq++
 	id := s.timerSeq
 	s.mu.Unlock()
+	raceEnable()
 	site := "timer"
 	fires := 0
 	return time.AfterFunc(d, func() {
 		// Runs on a runtime timer goroutine inside the bubble: register as a
 		// managed goroutine and park before touching anything.
+		raceDisable()
 		s.mu.Lock()
 		fires++
 		key := "timer" + itoa6(id) + "." + itoa6(fires)
@@ -321,6 +344,7 @@ func AfterFuncQuiet(d time.Duration, f func()) *time.Timer {
 		s.gs[key] = g
 		s.order = append(s.order, g)
 		s.mu.Unlock()
+		raceEnable()
 		s.body(g, f)
 	})
 }
@@ -418,3 +442,9 @@ func Sleep(d time.Duration) {
 	time.Sleep(d)
 	Resume()
 }
+
+// HBRelease / HBAcquire let harness code that hands library memory from one
+// goroutine to another (a reusing frame pool) announce the happens-before edge
+// a real implementation would create with its own synchronisation.
+func HBRelease(p *uint64) { raceReleaseMerge(unsafe.Pointer(p)) }
+func HBAcquire(p *uint64) { raceAcquire(unsafe.Pointer(p)) }
